@@ -136,3 +136,273 @@ def c04(tier, seed):
                     "meta": {"prop": "C04", "style": style, "point": point},
                     "steps": steps})
     return out
+
+
+# ----------------------------------------------------------------------------- C01
+
+W = 1_250_000   # quinn's default per-stream receive window
+
+
+def c01(tier, seed):
+    rng = random.Random(seed * 7919 + 1)
+    out = []
+    n = 0
+
+    def add(role, peer, steps, meta, cfg=None):
+        nonlocal n
+        s = {"scn": "C01-%04d" % n, "role": role, "peer": peer, "meta": dict(meta, prop="C01"),
+             "steps": steps}
+        if cfg:
+            s["cfg"] = cfg
+        out.append(s)
+        n += 1
+
+    # (i) two wtransport endpoints
+    lens_small = [0, 1, 2, 63, 64, 65, 16383, 16384, 65536]
+    lens_big = [W - 1, W, W + 1, 3 * W]
+    cases = []
+    for role in ("client", "server"):
+        for kind in ("uni", "bi"):
+            for ln in lens_small + lens_big:
+                cases.append((role, kind, ln))
+    if tier == "quick":
+        keep = [c for c in cases if c[2] in (0, 1, 64, 16384)] + \
+               [("client", "bi", W + 1), ("server", "uni", 3 * W), ("server", "bi", 65536), ("client", "uni", W)]
+        cases = keep
+    for (role, kind, ln) in cases:
+        chunks = [0]
+        if ln and ln <= 65:
+            chunks += [1]
+        if ln >= 2:
+            chunks += [max(1, ln // 2), 1 + rng.randrange(min(ln, 70000))]
+        bufs = [4096, 65536, 7, 2] + ([1] if ln <= 65 else [])
+        if tier == "quick":
+            chunks = [rng.choice(chunks)]
+            bufs = [rng.choice(bufs)]
+        for chunk in chunks:
+            for buf in (bufs if tier != "quick" else bufs[:1]):
+                if ln > 100000 and buf < 4096:
+                    continue
+                salt = rng.randrange(200)
+                op_open = "open_" + kind
+                op_acc = "accept_" + kind
+                steps = [step("app", op_open, tag="s"),
+                         step("app", "spawn", op="write", tag="s", len=ln, salt=salt, chunk=chunk,
+                              then_finish=True, ms=20000),
+                         step("app2", op_acc, tag="s", ms=5000),
+                         step("app2", "read", tag="s", buf=buf, salt=salt, ms=20000)]
+                if kind == "bi":
+                    # the return direction carries no preamble
+                    salt2 = salt + 1
+                    back = min(ln, 70000) + 3
+                    steps += [step("app2", "spawn", op="write", tag="s", len=back, salt=salt2,
+                                   chunk=chunk if chunk <= back else 0, then_finish=True, ms=20000),
+                              step("app", "read", tag="s", buf=buf, salt=salt2, ms=20000)]
+                steps += [step("app", "await", tag="s", ms=20000)]
+                if kind == "bi":
+                    steps += [step("app2", "await", tag="s", ms=20000)]
+                add(role, "wt", steps, {"family": "wt-wt", "kind": kind, "len": ln, "chunk": chunk, "buf": buf})
+    # concurrent streams
+    for role in ("client", "server"):
+        for nstreams in ([2, 8] if tier == "quick" else [2, 8, 40]):
+            steps = []
+            for k in range(nstreams):
+                kind = "uni" if k % 2 == 0 else "bi"
+                steps += [step("app", "open_" + kind, tag="s%d" % k),
+                          step("app", "spawn", op="write", tag="s%d" % k, len=1000 + 997 * k,
+                               salt_from_id=True, chunk=0 if k % 3 else 333, then_finish=True, ms=20000)]
+            # accept in whatever order they surface; streams are told apart by their id
+            for k in range(nstreams):
+                kind = "uni" if k % 2 == 0 else "bi"
+                steps += [step("app2", "accept_" + kind, tag="r%d" % k, ms=5000)]
+            # accept order need not be open order: both ends derive the pattern salt from the stream id
+            for k in range(nstreams):
+                steps += [step("app2", "read", tag="r%d" % k, buf=4096, ms=20000, salt_from_id=True)]
+            for k in range(nstreams):
+                steps += [step("app", "await", tag="s%d" % k, ms=20000)]
+            add(role, "wt", steps, {"family": "concurrent", "n": nstreams})
+
+    # (ii) raw peer writes a WebTransport stream whose preamble is cut at every position
+    sid = 0
+    pre_uni = [varint(0x54) + varint(sid), varint(0x54, 4) + varint(sid, 2), varint(0x54, 8) + varint(sid, 8)]
+    pre_bi = [varint(0x41) + varint(sid), varint(0x41, 4) + varint(sid, 2), varint(0x41, 8) + varint(sid, 4)]
+    payload = [0x54, 0x00, 0x41, 0x00, 0x40, 0x54, 9, 8, 7]     # looks like preambles itself
+    for role in ("server", "client"):
+        for kind, pres in (("uni", pre_uni), ("bi", pre_bi)):
+            for pre in pres:
+                wire = pre + payload
+                cuts = [[c] for c in range(1, len(pre) + 2)]
+                if len(pre) <= 4:
+                    cuts += [[a, b] for a in range(1, len(pre) + 1) for b in range(a + 1, len(pre) + 2)]
+                cuts.append([])
+                if tier == "quick":
+                    cuts = pick(rng, cuts, 4)
+                for cut in cuts:
+                    steps = [step("peer", "open_" + kind, tag="p")]
+                    prev = 0
+                    for c in cut + [len(wire)]:
+                        steps.append(step("peer", "write", tag="p", bytes=wire[prev:c]))
+                        steps.append(sleep(25))
+                        prev = c
+                    steps += [step("peer", "fin", tag="p"),
+                              step("app", "accept_" + kind, tag="a", ms=5000),
+                              step("app", "read", tag="a", buf=3, ms=5000)]
+                    if kind == "bi":
+                        steps += [step("app", "write", tag="a", len=10, salt=5, then_finish=True)]
+                    # and the other way round: the endpoint opens, the raw peer records
+                    steps += [step("app", "open_" + kind, tag="o"),
+                              step("app", "write", tag="o", len=33, salt=9, chunk=5, then_finish=True)]
+                    steps.append(sleep(60))
+                    add(role, "raw", steps, {"family": "raw-cut", "kind": kind, "cut": cut, "pre": pre})
+    return out
+
+
+# ----------------------------------------------------------------------------- C02
+
+def _can_bind_443():
+    import socket
+    try:
+        s = socket.socket(socket.AF_INET, socket.SOCK_DGRAM)
+        s.bind(("127.0.0.1", 443))
+        s.close()
+        return True
+    except OSError:
+        return False
+
+
+def _hdr_classes(rng):
+    shrink = lambda n: "".join("aeiost"[i % 6] for i in range(n))          # Huffman shrinks
+    noshrink = lambda n: "".join("#$<>{}~^"[i % 8] for i in range(n))     # Huffman would grow
+    vals = [""] + [f(n) for n in (1, 6, 7, 8, 126, 127, 128, 300) for f in (shrink, noshrink)]
+    names_static = ["origin", "user-agent", "content-type", "accept-language", "cookie", "referer",
+                    "accept-encoding", "x-frame-options"]
+    names_lit = ["x", "x-a", "sec-webtransport-http3-draft", "abcdefg", "abcdefgh", "q" * 126, "q" * 127,
+                 "q" * 128, "a.b_c~d", "0digit", "x-" + shrink(20)]
+    return names_static, names_lit, vals
+
+
+def c02(tier, seed):
+    rng = random.Random(seed * 7919 + 2)
+    names_static, names_lit, vals = _hdr_classes(rng)
+    decisions = ["accept", "accept_headers", "forbidden", "not_found", "too_many"]
+    hosts = [("127.0.0.1", {}), ("localhost", {}), ("a.b-c.example", {}), ("[::1]", {"bind": "dual"})]
+    paths = ["", "/", "/a/b/c", "/chat/room1/", "/A.b-c_d~e"]
+    queries = ["", "?", "?a=b&c=d", "?x"]
+    urls = []
+    for h, cfg in hosts:
+        for p in paths:
+            for q in queries:
+                urls.append(("https://%s:{port}%s%s" % (h, p, q), cfg))
+    if _can_bind_443():
+        for h in ("127.0.0.1", "localhost"):
+            urls.append(("https://%s/" % h, {"port": 443}))
+            urls.append(("https://%s:443/p?q=1" % h, {"port": 443}))
+            urls.append(("https://%s" % h, {"port": 443}))
+    header_sets = [[]]
+    for nm in names_static + names_lit:
+        header_sets.append([(nm, rng.choice(vals))])
+    for v in vals:
+        header_sets.append([(rng.choice(names_static + names_lit), v)])
+    header_sets.append([("origin", "https://example.org"), ("user-agent", "wtv/1"), ("x-a", "1"), ("x-b", "")])
+    # values that equal a static-table entry exactly
+    header_sets.append([("content-type", "text/plain"), ("accept-encoding", "gzip, deflate, br"),
+                        ("x-frame-options", "deny")])
+    for _ in range(20):
+        hs = {}
+        for _ in range(rng.randrange(1, 7)):
+            hs[rng.choice(names_static + names_lit)] = rng.choice(vals)
+        header_sets.append(sorted(hs.items()))
+    combos = []
+    for i, (url, cfg) in enumerate(urls):
+        combos.append((url, cfg, header_sets[i % len(header_sets)], decisions[i % 5], header_sets[(i * 7 + 3) % len(header_sets)]))
+    for i, hs in enumerate(header_sets):
+        url, cfg = urls[(i * 5 + 1) % len(urls)]
+        combos.append((url, cfg, hs, decisions[(i + 2) % 5], header_sets[(i * 3 + 1) % len(header_sets)]))
+    for d in decisions:
+        for role in ("client", "server"):
+            combos.append((urls[0][0], urls[0][1], header_sets[-1], d, header_sets[-2]))
+    if tier == "quick":
+        combos = combos[:10] + pick(rng, combos[10:], 50)
+    out = []
+    for n, (url, cfg, hdrs, decision, extra) in enumerate(combos):
+        role = "client" if n % 2 == 0 else "server"
+        extra = [(k, v) for (k, v) in extra if not k.startswith(":")]
+        s = {"scn": "C02-%04d" % n, "role": role, "peer": "wt", "url": url,
+             "headers": [[k, v] for k, v in hdrs], "decision": decision,
+             "extra": [[k, v] for k, v in extra], "cfg": dict(cfg),
+             "meta": {"prop": "C02", "decision": decision,
+                      "hdrs": [[list(k.encode()), list(v.encode())] for k, v in hdrs]},
+             "steps": []}
+        out.append(s)
+    return out
+
+
+# ----------------------------------------------------------------------------- C03
+
+def c03(tier, seed):
+    rng = random.Random(seed * 7919 + 3)
+    out = []
+    n = 0
+
+    def add(role, peer, steps, meta, cfg=None):
+        nonlocal n
+        s = {"scn": "C03-%04d" % n, "role": role, "peer": peer, "meta": dict(meta, prop="C03"),
+             "steps": steps}
+        if cfg:
+            s["cfg"] = cfg
+        out.append(s)
+        n += 1
+
+    limits = [0, 1, 2, 5, 8, 9, 10, 11, 100, 1200, 65535]
+    if tier == "quick":
+        limits = [0, 1, 5, 9, 100, 65535]
+    salt = 0
+    for role in ("server", "client"):
+        for lim in limits:
+            steps = [step("app", "max_dgram")]
+            for rel in (0, -1, 1, 8):
+                salt += 1
+                steps.append(step("app", "send_dgram", rel=rel, salt=salt))
+                steps.append(step("app", "max_dgram"))
+            for ln in (0, 1, 2, 50):
+                salt += 1
+                steps.append(step("app", "send_dgram", len=ln, salt=salt))
+            steps.append(sleep(60))
+            add(role, "raw", steps, {"family": "limits", "limit": lim}, {"peer_dgram_recv": lim})
+    # peer -> application, live and foreign sessions interleaved
+    for role in ("server", "client"):
+        steps = []
+        k = 0
+        for q in (0, 1, 0, 64, 0, (1 << 60) - 1, 0):
+            k += 1
+            body = [k, 0x00, 0x41, 0x54, k]          # looks like framing itself
+            steps.append(step("peer", "dgram", bytes=varint(q) + body))
+            steps.append(sleep(15))
+            if q == 0:
+                steps.append(step("app", "recv_dgram", ms=800))
+        steps.append(step("peer", "dgram", bytes=varint(0)))         # empty payload
+        steps.append(step("app", "recv_dgram", ms=800))
+        steps.append(step("peer", "dgram", bytes=varint(0, 8) + [1]))   # non-shortest quarter id
+        steps.append(step("app", "recv_dgram", ms=800))
+        steps.append(step("app", "recv_dgram", ms=150))                 # nothing left: foreign ones are dropped
+        add(role, "raw", steps, {"family": "peer-to-app"})
+    # two wtransport endpoints, both directions interleaved
+    for role in ("client", "server"):
+        lens = [0, 1, 2, 100, 1000, 1200]
+        steps = []
+        for i, ln in enumerate(lens):
+            salt += 1
+            steps.append(step("app", "send_dgram", len=ln, salt=salt))
+            salt += 1
+            steps.append(step("app2", "send_dgram", len=ln + 1, salt=salt))
+            if i % 2:
+                steps.append(step("app2", "recv_dgram", ms=500))
+                steps.append(step("app", "recv_dgram", ms=500))
+        for _ in lens:
+            steps.append(step("app2", "recv_dgram", ms=300))
+            steps.append(step("app", "recv_dgram", ms=300))
+        steps += [step("app", "max_dgram"), step("app2", "max_dgram"),
+                  step("app", "send_dgram", rel=0, salt=salt + 1), step("app", "send_dgram", rel=1, salt=salt + 2),
+                  step("app2", "recv_dgram", ms=500)]
+        add(role, "wt", steps, {"family": "wt-wt"})
+    return out
